@@ -1,5 +1,6 @@
 import Driver.Proto
 import Driver.OpsDiffGeo
+import Driver.OpsFem
 import LapyVerif.Model.Poisson
 import LapyVerif.Model.Measures
 import LapyVerif.Model.Heat
@@ -57,6 +58,16 @@ def opHeatSys : P String := do
     let tt := Heat.time m (Measures.tetAvgEdgeLength vtx t)
     return s!"ok {floatBits tt} {outCoo (Heat.heatMat tt (Fem.stiffTet vtx t) (Fem.massTet true vtx t))} {outFloats (Heat.seedVec v.size vids)}"
 
+/-- `heat_sys_aniso verts tris m vids a0 a1 nt×(u1 u2 c1 c2)` : the system of `diffusion(tria, vids, m, aniso=(a0,a1))` -/
+def opHeatSysAniso : P String := do
+  let v ← pVerts
+  let vtx := vtxOf v
+  let t ← pTris; let m ← pFloat; let vids ← pNats; let a0 ← pFloat; let a1 ← pFloat
+  let cur ← pCur t.length
+  let tt := Heat.time m (Measures.avgEdgeLength vtx t)
+  let (a, b) := Fem.solverAniso true vtx t a0 a1 cur
+  return s!"ok {floatBits tt} {outCoo (Heat.heatMat tt a b)} {outFloats (Heat.seedVec v.size vids)}"
+
 def pMatrix : P (List (List Float)) := do
   let r ← pNat; let c ← pNat
   let rows ← pMany r (do let x ← pMany c pFloat; pure x.toList)
@@ -74,6 +85,6 @@ def opDiagonal : P String := do
   let ts ← pFloats; let xs ← pNats; let ev ← pMatrix; let la ← pFloats; let n ← pNat
   return s!"ok {outMatrix (Heat.diagonal ts xs ev la n)}"
 
-def heatOps : List (String × P String) := [("heat_sys", opHeatSys), ("kernel", opKernel), ("diagonal", opDiagonal)]
+def heatOps : List (String × P String) := [("heat_sys", opHeatSys), ("heat_sys_aniso", opHeatSysAniso), ("kernel", opKernel), ("diagonal", opDiagonal)]
 
 end LapyVerif.Driver
